@@ -33,6 +33,8 @@ type process struct {
 	pid      *PID
 	restarts int32
 	mbuffer  []Envelope
+	// set once cleanup ran, the process must not be started again.
+	terminated bool
 }
 
 func newProcess(e *Engine, opts Opts) *process {
@@ -133,6 +135,11 @@ func (p *process) Start() {
 		p.Invoke(p.mbuffer)
 		p.mbuffer = nil
 	}
+	// The replayed messages could have stopped the process (poison pill,
+	// max restarts exceeded). Don't bring its inbox back to life.
+	if p.terminated {
+		return
+	}
 
 	p.inbox.Start(p)
 }
@@ -187,6 +194,7 @@ func (p *process) cleanup(cancel context.CancelFunc) {
 	if cancel != nil {
 		defer cancel()
 	}
+	p.terminated = true
 
 	if p.context.parentCtx != nil {
 		p.context.parentCtx.children.Delete(p.pid.ID)
